@@ -257,6 +257,9 @@ def check_accepted(out, form, v, pat, has_sheet):
         want_binds[f"{ep}/label"] = {"type": "string", "readonly": "true()", "calculate": ("expr", row["label"])}
     got_binds = {ns: {k: val for k, val in xform.attrs(b[0]).items() if k != "nodeset"} for ns, b in bm.items() if ns.startswith(ep)}
     out.checked("C19.binds")
+    for ns, b in bm.items():
+        if ns.startswith(ep) and len(b) > 1:
+            out.fail("C19.binds", "duplicate:" + ns.rsplit("/", 1)[-1], f"pattern {pat}: {len(b)} binds for {ns}")
     if set(got_binds) != set(want_binds):
         d = sorted(set(got_binds) ^ set(want_binds))[0]
         out.fail("C19.binds", ("extra:" if d in got_binds else "missing:") + d.rsplit("/", 1)[-1], f"pattern {pat}: entity binds {sorted(got_binds)}, expected {sorted(want_binds)}")
